@@ -799,6 +799,26 @@ def rule_no_vm_bound_values_on_objects(ctx, rep, rid: str) -> None:
     rep.rule(rid, "a value bound to one interpreter (the result of a method-table factory of the interpreter class) is only returned, pushed on that interpreter's own stack or kept in that interpreter's own attributes, never stored in an attribute or dictionary of a script object", floor=1)
     vmcls = ctx.facts.vm_dispatcher()[0].cls
     producers = {m.name for m in vmcls.all_methods if m.name.startswith("_make_") and m.name.endswith("_method")}
+    # by shape as well: a method whose nested functions use the interpreter (self, or a local alias of it) and that
+    # returns one of them, a table of them, or what another such method returns
+    grew = True
+    while grew:
+        grew = False
+        for m in vmcls.all_methods:
+            if isinstance(m.node, ast.Lambda) or m.name in producers or not m.children:
+                if isinstance(m.node, ast.Lambda) or m.name in producers:
+                    continue
+            aliases = {"self"} | {t.id for a in m.own_nodes() if isinstance(a, ast.Assign) and isinstance(a.value, ast.Name) and a.value.id == "self" for t in a.targets if isinstance(t, ast.Name)}
+            bound_children = {g.name for g in m.children.values() if not isinstance(g.node, ast.Lambda) and any(isinstance(x, ast.Name) and x.id in aliases for x in ast.walk(g.node))}
+            tables = {t.id for a in m.own_nodes() if isinstance(a, ast.Assign) and isinstance(a.value, ast.Dict) and any(isinstance(v, ast.Name) and v.id in bound_children for v in a.value.values) for t in a.targets if isinstance(t, ast.Name)}
+            for r in m.own_nodes():
+                if not (isinstance(r, ast.Return) and r.value is not None):
+                    continue
+                v = r.value
+                hit = (isinstance(v, ast.Name) and v.id in tables) or (isinstance(v, ast.Call) and isinstance(v.func, ast.Attribute) and v.func.attr == "get" and isinstance(v.func.value, ast.Name) and v.func.value.id in tables) or any(isinstance(x, ast.Call) and isinstance(x.func, ast.Attribute) and norm(x.func.value) == "self" and x.func.attr in producers for x in ast.walk(v))
+                if hit and m.name not in producers:
+                    producers.add(m.name)
+                    grew = True
     if len(producers) < 3:
         raise AnalysisError(f"method-table factories of the interpreter not found ({sorted(producers)})")
 
